@@ -60,6 +60,13 @@ class Ctx:
             return self.ok(rule, instance, where, detail)
         return self.fail(rule, instance, where, why, construct)
 
+    def borrow(self, fn, rule):
+        """Run a rule function of another property and file its obligations under `rule` of this one (shared mechanism)."""
+        before = len(self.obligations)
+        fn(self)
+        for o in self.obligations[before:]:
+            o.rule = rule
+
     def error(self, msg):
         self.errors.append(msg)
 
